@@ -35,14 +35,25 @@ for agent in sorted(os.listdir(RAW)):
             for cm in re.finditer(r'--- check (\S+) rc=(\d+)\n(.*?)(?=\n--- check |\Z)', blk, re.S):
                 viol = re.findall(r'violated: \[([^\]]+)\] (.*)', cm.group(3))
                 det[cm.group(1)] = {'exit_code': int(cm.group(2)), 'violated': [{'obligation': a, 'what': b[:300]} for a, b in viol]}
-        caught = sorted(set(v['obligation'] for r in det.values() if r['exit_code'] == 1 for v in r['violated']))
+        # every run that ended with exit 1 counts (the checks were only ever strengthened between runs; a later run of the same spec that ended as exit 2
+        # because its playback was killed under machine load does not take a detection back)
+        caught_all = set()
+        for blk in re.split(r'(?m)^=== ', mut):
+            if os.path.join(d, 'patch.diff') not in blk.split('\n')[0]:
+                continue
+            for cm in re.finditer(r'--- check (\S+) rc=(\d+)\n(.*?)(?=\n--- check |\Z)', blk, re.S):
+                if cm.group(2) == '1':
+                    for a, b in re.findall(r'violated: \[([^\]]+)\] (.*)', cm.group(3)):
+                        caught_all.add((a, '@thorough' in cm.group(1)))
+        caught = sorted(set(a for a, t in caught_all))
+        only_thorough = bool(caught_all) and all(t for a, t in caught_all)
         meta = {
             'id': sid, 'property': pid, 'property_title': props[pid]['title'],
             'origin': 'independent sub-agent given only the property text and its own scratch worktree of /repo (nothing from /verif)',
             'needs_to_manifest': need, 'confirmed_by_me': conf,
             'what_i_ran': 'tools/mutconfirm.sh (scratch worktree: demo passes on the clean tree, fails with the change, existing suite passes with the change); '
                           'tools/mutrun.sh <patch> <log> <checks> (checks run against a copy of /repo with the change applied)',
-            'checks_run': det, 'caught_by': caught, 'detected': bool(caught),
+            'checks_run': det, 'caught_by': caught, 'detected': bool(caught), 'detected_only_by_thorough_tier': only_thorough,
         }
         json.dump(meta, open(os.path.join(o, 'meta.json'), 'w'), indent=1)
         print(sid, 'detected' if caught else 'NOT DETECTED', caught)
